@@ -22,10 +22,10 @@ CHECKS = {
     "C05": dict(level=EX, design="3 C05", technique="Chess.tla Status as oracle: TLC-enumerated endgame families (all mates/stalemates) replayed into the evaluator; evaluation events of recorded play validated by TLC (ChessTrace!TEval, TEvalConsts)",
                 text="Status (mate/stalemate/open) comes from the specification; the evaluator is run on every position of the enumerated families and on play positions from both perspectives at seven plies; the mate-score table is checked by TLC for threshold and antitonicity. The heuristic value itself is not specified.",
                 note=TRUST + "; material imbalance >= 90 pawn units is outside the property's domain"),
-    "C10": dict(level=MC, design="3 C10", technique="Chess.tla AttackSet/InCheck as oracle; TLC trace validation of query/clone sequences on one board object (ChessTrace!TAttackOps) and of the check flag along play and families",
+    "C10": dict(level=MC, design="3 C10", technique="Chess.tla AttackSet/InCheck as oracle; AttackCache.tla (queries, clones, derived objects in every order; stale-cache variant as guard) model-checked; TLC trace validation of query/clone sequences on the live derived object and on fresh copies (ChessTrace!TAttackOps) and of the check flag along play and families",
                 text="Attack sets and check are pure functions in the specification; the query-order/clone history is exercised by seeded op sequences on one object and its clones, each answer compared by TLC; check flags are compared on every play and family position.",
                 note=TRUST),
-    "C13": dict(level=EX, design="3 C13", technique="Chess.tla Mirror (with involution/commutation invariants model-checked) + TLC validation of evaluation quadruples recorded from the real evaluator",
+    "C13": dict(level=EX, design="3 C13", technique="Chess.tla Mirror (with involution/commutation invariants model-checked) + TLC validation of evaluation quadruples recorded from the real evaluator; enumerated families replayed with the mirrored position supplied by the specification",
                 text="The specification supplies the mirror transformation and verifies the harness's mirroring; the relations score(p,W)=-score(p,B) and score(Mirror p, other)=score(p, c) are judged by TLC on every recorded quadruple. Numeric heuristics are otherwise unspecified (said in DESIGN.md 6).",
                 note=TRUST),
 }
@@ -52,7 +52,7 @@ CHECKS.update({
 })
 
 CHECKS.update({
-    "C15": dict(level=MC, design="3 C15", technique="TT.tla (concurrent bounded-map model with locks, two-step insert, non-snapshot entries()) model-checked over all interleavings; TLC-simulated behaviours executed on the real table; in-lock hook events linearised by version counter and validated by TTTrace.tla (subset construction over displacement victims)",
+    "C15": dict(level=MC, design="3 C15", technique="TT.tla (concurrent bounded-map model with locks, two-step insert, non-snapshot entries()) model-checked over all interleavings; TLC-simulated behaviours executed on the real table; in-lock hook events linearised by version counter and validated by TTTrace.tla (subset construction over displacement victims, 64-bit keys); hook-free per-thread call logs judged for read-your-writes (TTTrace!TOwn)",
                 text="All interleavings of 2-3 threads x 3 operations on a small table are explored for Faithful/CountOk/Bounded/Routing/Fresh/Retained, with a broken-lookup configuration as vacuity guard; specification behaviours (3 threads x 60 ops, 11 keys sharing one 8-slot bucket) run single- and multi-threaded on the real table, and 2..32 real threads hammer real tables; every recorded find/insert/entries is explained by the model or reported.",
                 note=TRUST + "; hook events are emitted inside insert/find/entries while the sub-table lock is held"),
 })
@@ -65,11 +65,11 @@ CHECKS.update({
     "C04": dict(level=MC, design="3 C04", technique="Search.tla control layer (flag, poll period K, per-iteration counters, uninterruptible first iteration, Stop at any instant) model-checked incl. liveness StopObeyed/Termination, with the pinned loop and pinned assert as counterexample guards; real searches cancelled at exact node indices (hook), terminal roots, tiny trees, public threaded API with Stop/drop - validated by SearchTrace.tla",
                 text="Every Stop instant is enumerated on the model (bounded response, stop obeyed, report before end, no panic, terminal root quiet); on the code the flag is set at every node index of small searches for 1/2/4 workers, mated/stalemated roots from the checked tablebases are searched, tiny trees without depth limit must end through Stop, capture-heavy positions are stopped inside quiescence, and the public API is stopped at sampled instants with the receiver kept or dropped; the returned artifact seeds a following search.",
                 note=SEARCH_NOTE + "; hang-detector limit 5 s after Stop (the code needs milliseconds); a harness without progress is killed and the dangling search judged as timeout"),
-    "C06": dict(level=MC, design="3 C06", technique="Tablebase certificates: untrusted retrograde tables for K+R v K and K+Q v K checked entry by entry by TLC against Chess.tla (TbCheck.tla); Search.tla MateSound/MateFound model-checked under all interleavings of 3 workers on games with transpositions (1.2 M states); reports of real searches judged by SearchTrace.tla with the checked tables",
-                text="Soundness (a mate claim implies a forced mate and the first move keeps it) and completeness (forced mate in n <= 5 plies found at depth n..n+2 from a fresh memory) are decided exactly on the two complete 3-man families, both colours, 1-32 workers with seeded schedules.",
+    "C06": dict(level=MC, design="3 C06", technique="Tablebase certificates: untrusted retrograde tables for K+R v K and K+Q v K checked entry by entry by TLC against Chess.tla (TbCheck.tla); Search.tla MateSound/MateFound model-checked under all interleavings of 3 workers on games with transpositions (1.2 M states); reports of real searches judged by SearchTrace.tla with the checked tables; outside the families an untrusted exhaustive solver's strategy trees (forced mates within 5 plies) are checked by CertTrace.tla and the engine's fresh searches at depth n..n+2 judged against them",
+                text="Soundness (a mate claim implies a forced mate and the first move keeps it) and completeness (forced mate in n <= 5 plies found at depth n..n+2 from a fresh memory) are decided exactly on the two complete 3-man families, both colours, 1-32 workers with seeded schedules; the completeness half additionally on every corpus/tactical/random position for which a TLC-checked certificate of a mate within 5 plies exists. Soundness outside the families is not decided (DESIGN.md 9.5/9.7); a bounded-table configuration of the model documents the design-level observation D7.",
                 note=SEARCH_NOTE),
     "C17": dict(level=MC, design="3 C17", technique="Search.tla HistoryHit / RepetitionAvoided model-checked on a game with two mating moves; real searches of tablebase positions with two optimal mating moves and the successor of one recorded (hook, or searched first on the same memory) judged by SearchTrace.tla; worker streams validated by SearchWB.tla (every history hit is a recorded non-root position and vice versa)",
-                text="The model shows the recorded successor is never chosen while mate is still reported; on the code both ways of recording are used (cold table through the hook, warm table as in a game), depth n..n+2, 1-8 workers.",
+                text="The model shows the recorded successor is never chosen while mate is still reported; on the code both ways of recording are used (cold table through the hook, warm table as in a game), depth n..n+2, 1-8 workers; a root all of whose moves re-enter recorded positions must be reported with evaluation 0.",
                 note=SEARCH_NOTE),
     "C19": dict(level=EX, design="3 C19", technique="Search.tla determinism configuration (one worker, fixed order, no Stop) model-checked; triples of real runs (two in one process, one in another; hooked and public entry points) compared event by event by TLC (SearchTrace!TRepro)",
                 text="The specification's role is thin here (equality of complete event sequences incl. node counts); the substance is the enumeration of positions x seeds x depths.",
